@@ -228,7 +228,7 @@ PROPS['C17'] = {
 PROPS['C08'] = {
     'level': 'exploration',
     'technique': 'bounded-exhaustive enumeration of (algorithm row x direction x length x IV class) on all 7 variants with a cross-variant equality / recovery oracle + enumeration of every (init function x single missing CPU feature bit x prior manager state) fault case in forked children',
-    'level_text': 'Part A: every algorithm row, both directions, lengths 0..80 (thorough 0..1100) + every SIMD stride boundary +-1 up to 8192 + the long-message region 4040..4100 (thorough ..4360, 16300..16400) where multi-block counter fast paths wrap, byte- and non-byte-aligned bit lengths, 3 IV classes: destination, tag, next_iv, status and error code must be byte-identical on all 7 variants reachable on the host (incl. the SHANI-off / GFNI-off types); what the first variant protects is opened on every variant (with ciphertext equality this covers all 49 protecting/recovering pairs); 8 altered (invalid) jobs per row must be refused with the same status and error code everywhere. Part B: init_mb_mgr_auto under the 4 flag sets binds exactly the handler table / features / arch of the explicit init. Part C: each init function x each single required CPU feature bit cleared in mgr->features x prior state (fresh, or initialised as each of the 7 variants) in a forked child: no fault, IMB_ERR_MISSING_CPUFLAGS_INIT_MGR (auto: best remaining architecture), bound handlers untouched, manager still works; init(NULL) reports IMB_ERR_NULL_MBMGR.',
+    'level_text': 'Part A: every algorithm row, both directions, lengths 0..80 (thorough 0..1100) + every SIMD stride boundary +-1 up to 8192 + the long-message region 4040..4100 (thorough ..4360, 16300..16400) where multi-block counter fast paths wrap, byte- and non-byte-aligned bit lengths, 3 IV classes: destination, tag, next_iv, status and error code must be byte-identical on all 7 variants reachable on the host (incl. the SHANI-off / GFNI-off types); what the first variant protects is opened on every variant (with ciphertext equality this covers all 49 protecting/recovering pairs); 8 altered (invalid) jobs per row must be refused with the same status and error code everywhere; co-scheduled batches of 2 / 5 / 9 / 17 jobs of unequal lengths (different numbers of full blocks, partial last blocks; 4 rotations, thorough 20) are submitted together and flushed on every variant and every job must equal what the first variant produced for it; DOCSIS-SEC + CRC32 frames additionally with header lengths 14..80 and with cipher ranges ending before the CRC field. Part B: init_mb_mgr_auto under the 4 flag sets binds exactly the handler table / features / arch of the explicit init. Part C: each init function x each single required CPU feature bit cleared in mgr->features x prior state (fresh, or initialised as each of the 7 variants) in a forked child: no fault, IMB_ERR_MISSING_CPUFLAGS_INIT_MGR (auto: best remaining architecture), bound handlers untouched, manager still works; init(NULL) reports IMB_ERR_NULL_MBMGR.',
     'level_note': 'Variants needing CPU features the host lacks (AVX2 types 3/4, SSE without AES-NI) cannot be executed. Equality against the specification is C01-C03; direct-API equality across variants follows from C09 part 2 comparing every variant with one reference.',
     'drivers': [{'name': 'c08', 'src': ['props/c08.c'] + ALG, 'cfgs': ['std'], 'args': ''}],
     'deadline': {'quick': 900, 'thorough': 3000},
